@@ -1,6 +1,7 @@
 import PqV.Lemmas.Footer
 import PqV.Lemmas.FooterSeq
 import PqV.Gen.FooterIO
+import PqV.Gen.KvMerge
 /-!
 # C16 — user key-value metadata verbatim; in-place updates touch nothing else
 
@@ -141,5 +142,17 @@ theorem any_update_sequence (nfs : List (List Nat)) (hall : ∀ nf ∈ nfs, nf.l
 
 example : framedStrict ([1, 2, 3] ++ [9, 9] ++ leBytes 4 2 ++ magic) 3 [9, 9] := by
   unfold framedStrict; decide
+
+/-- the merge loop of `util.update_custom_metadata` as the source has it now (REGENERATED, branch by
+    branch): a key found with value `None` is deleted from BOTH parallel lists at its index, a key found
+    with a value is replaced by the encoded value, a new key is appended exactly when its value is not
+    `None` (an empty value is a value) — the rules `Impl.Footer.mergeStep` models and
+    `kv_merge_any_update` is about -/
+theorem kv_rules_now :
+    PqV.Gen.KvMerge.foundCond = "key_binkvm_keys" ∧ PqV.Gen.KvMerge.removeCond = "valueisNone" ∧
+    PqV.Gen.KvMerge.removeStmts = ["delkvm[idx]", "delkvm_keys[idx]"] ∧
+    PqV.Gen.KvMerge.replaceStmts = ["kvm[idx]=parquet_thrift.KeyValue(key=key_b,value=ensure_bytes(value))"] ∧
+    PqV.Gen.KvMerge.addCond = "valueisnotNone" ∧
+    PqV.Gen.KvMerge.addStmts = ["kvm.append(parquet_thrift.KeyValue(key=key_b,value=ensure_bytes(value)))"] := by decide
 
 end PqV.Props.C16
